@@ -1,2 +1,3 @@
 import FcProps.C01
 import FcProps.C16
+import FcProps.C20
